@@ -53,4 +53,5 @@ THEOREMS = [
     ("DastardV.Props.C20", "DastardV.C20.C20_closed_files_frozen"),
     ("DastardV.Props.C20", "DastardV.C20.C20_label_own_stamp"),
     ("DastardV.Lemmas.ComposeRunLog", "DastardV.Compose.lancero_ext_triggers_to_file"),
+    ("DastardV.Lemmas.ComposeRunLog", "DastardV.Compose.abaco_drops_to_file"),
 ]
